@@ -180,6 +180,12 @@ def ext(work, tier, seed):
         for k in ("lines", "distinct", "distinct_nontrivial"):
             stats[k] += stats3[k]
         stats["classes"].update(stats3["classes"])
+    from .props_client import inform_ext
+    violi, tstatesi, ni, mcsi = inform_ext(work, tier, seed)
+    viol, tstates, n = viol + violi, tstates + tstatesi, n + ni
+    stats["lines"] += ni
+    stats["distinct"] += ni
+    stats["classes"]["inform-exchange"] = ni
     for desc, _ in viol[:20]:
         common.log("EXTENDED-MISMATCH " + desc[:500])
     cov = dict(states=tstates, transitions=tstates, traces_validated_against_impl=n, evaluations=stats["lines"], distinct=stats["distinct"],
@@ -192,7 +198,10 @@ def ext(work, tier, seed):
                     "every typed accessor of the DHCPv6 option containers (message, relay, IA, PD, address, prefix, 4RD), the container "
                     "operations, the 19 modifiers and NewMessage/NewSolicit/advertise/request/reply with caller modifiers (spec/Dhcp6Mods.tla); "
                     "ztpv4.ParseCircuitID / ztpv6.ParseRemoteID on interface names drawn from the grammar of their regular expressions, "
-                    "judged by a backtracking matcher over the same expressions as token lists (spec/ZtpCircuit.tla)")
+                    "judged by a backtracking matcher over the same expressions as token lists (spec/ZtpCircuit.tla); "
+                    "nclient4.Inform against every server behaviour of Lease.tla with Inform = TRUE (one reply per transmission exhaustively, "
+                    "two simulated): the INFORM as the specification's builder gives it, completed by the first ACK that passes the "
+                    "transaction filter")
     common.write_evidence("EXT", tier, seed, cov, 0, 0, ["extended conformance: informational, not part of any property's verdict"])
     common.log("EXT lines=%d mismatches=%d" % (n, len(viol)))
     return 0
